@@ -25,6 +25,8 @@ func builtinNewRegExp(obj *object, argumentList []Value) Value {
 }
 
 func builtinRegExpToString(call FunctionCall) Value {
+	// 15.10.6: not generic - a TypeError unless the this value is a RegExp object.
+	call.thisClassObject(classRegExpName)
 	thisObject := call.thisObject()
 	source := thisObject.get("source").string()
 	flags := []byte{}
